@@ -360,6 +360,21 @@ func invocationCases(r *rand.Rand, n int) []Case {
 				if cmd == "format" && len(ct.incl) > 0 && chance(r, 0.4) {
 					pos = []string{pick(r, []string{ct.incl[0], ct.incl[0] + ".ra", ct.incl[0] + ".txt", "nosuchinclude", ra.id + ".", ra.id + ".yaml"})}
 				}
+				if cmd == "format" && chance(r, 0.35) {
+					// arguments with path separators: `path.Join` cleans them; they may address any file below the root
+					inc := "nosuch"
+					if len(ct.incl) > 0 {
+						inc = ct.incl[0]
+					}
+					var conf string
+					for path := range ct.t {
+						if strings.HasPrefix(path, "rules/") && strings.HasSuffix(path, ".conf") && (conf == "" || path < conf) {
+							conf = path
+						}
+					}
+					pos = []string{pick(r, []string{"./" + inc, "sub/../" + inc + ".ra", "../include/" + inc, inc + "/", "../" + ra.arg + ".ra", "../" + ra.arg, ".//" + inc + ".ra",
+						"../../" + conf, "../exclude/../include/./" + inc, ".", "..", "../..", "a/../..", "../../../outside.ra", "/" + inc, "../include"})}
+				}
 			case 2:
 				pos = []string{ra.arg, ra.arg}
 			default:
